@@ -236,10 +236,15 @@ def coq_check(prop, extra_targets=()):
     with Lock():
         gen_consts()
         ensure_coq_makefile()
-        # always re-check the (tiny) property file so that its output is this run's output
-        os.utime(os.path.join(COQ, prop_file))
         targets = [prop_file + "o", "extract/Extract.vo"] + list(extra_targets)
-        p = sh(["timeout", "1500", "make", "-j%d" % NPROC] + targets, cwd=COQ, check=False, timeout=1600)
+        # 1) bring the whole cone up to date (a failure here is a broken proof obligation) ...
+        p0 = sh(["timeout", "1500", "make", "-j%d" % NPROC] + targets, cwd=COQ, check=False, timeout=1600)
+        # 2) ... then re-check the (tiny) property file alone so that the Check / Print Assumptions
+        #    output parsed below is exactly this file's output of this run
+        os.utime(os.path.join(COQ, prop_file))
+        p = sh(["timeout", "1500", "make", prop_file + "o"], cwd=COQ, check=False, timeout=1600)
+        if p0.returncode != 0:
+            p = p0
     res["build_log_tail"] = p.stdout[-3000:]
     if p.returncode != 0:
         res["ok"] = False
